@@ -2113,7 +2113,6 @@ def _get_wrapper(proto_type: str) -> Type:
         TYPE_BYTES: BytesValue,
         TYPE_DOUBLE: DoubleValue,
         TYPE_FLOAT: FloatValue,
-        TYPE_ENUM: EnumValue,
         TYPE_INT32: Int32Value,
         TYPE_INT64: Int64Value,
         TYPE_STRING: StringValue,
